@@ -313,6 +313,49 @@ func (e *SpecEnv) ident(name string) (Value, error) {
 			return e.frame.env[best], nil
 		}
 	}
+	// any other local: the value a DebugRef of that name records, defined in a block that
+	// dominates the point of evaluation (innermost one wins)
+	if e.frame != nil {
+		var at *ssa.BasicBlock
+		if e.loop != nil {
+			at = e.loop.header
+		} else {
+			at = e.atBlock
+		}
+		if at != nil {
+			var best ssa.Value
+			var bestBlock *ssa.BasicBlock
+			for _, b := range e.frame.fn.Blocks {
+				if !b.Dominates(at) || (e.loop != nil && b == at) {
+					continue
+				}
+				for _, ins := range b.Instrs {
+					dr, ok := ins.(*ssa.DebugRef)
+					if !ok || dr.IsAddr {
+						continue
+					}
+					id, ok := dr.Expr.(*ast.Ident)
+					if !ok || id.Name != name {
+						continue
+					}
+					if _, ok := e.frame.env[dr.X]; !ok {
+						if _, isConst := dr.X.(*ssa.Const); !isConst {
+							continue
+						}
+					}
+					if bestBlock == nil || bestBlock.Dominates(b) {
+						best, bestBlock = dr.X, b
+					}
+				}
+			}
+			if best != nil {
+				if c, ok := best.(*ssa.Const); ok {
+					return e.x.constVal(c), nil
+				}
+				return e.frame.env[best], nil
+			}
+		}
+	}
 	// a local variable that lives in memory (its address is taken): the Alloc of that name
 	if e.frame != nil {
 		for _, b := range e.frame.fn.Blocks {
